@@ -115,7 +115,10 @@ void profile_geomapi(const json& plan, Ctx& ctx) {
 	uint64_t salt = ju64(plan, "salt", 1);
 	bool wantUV = jbool(plan, "uv", true), wantN = jbool(plan, "normals", true);
 	Mesh mesh = makeMesh(nv, nt, salt, jbool(plan, "halfexact", false));
-	if (!bs && mesh.t.size() > 65535) mesh.t.resize(65535);
+	// documented limit: 65535 before FO4 (also SSE), 2^32-1 from FO4 on (GetTriangleLimit itself answers 2^32-1 for OB/FO3,
+	// whose triangle counter is 16 bit wide: the documentation is followed)
+	size_t triLimit = (ver.IsFO4() || ver.IsFO76()) ? nif->GetTriangleLimit() : std::min<size_t>(nif->GetTriangleLimit(), 65535);
+	if (mesh.t.size() > triLimit) mesh.t.resize(triLimit);
 	setStage("create");
 	NiShape* s = nif->CreateShapeFromData("shape", &mesh.v, &mesh.t, wantUV ? &mesh.uv : nullptr, wantN ? &mesh.n : nullptr);
 	if (!s) { ctx.info["rejected_init"] = true; return; }
@@ -185,7 +188,7 @@ void profile_geomapi(const json& plan, Ctx& ctx) {
 		}
 		else if (op == "SetTriangles") {
 			Mesh t2 = makeMesh(nv, uint32_t(ju64(st, "nt", nt)), ju64(st, "salt", 1), false);
-			if (!bs && t2.t.size() > 65535) t2.t.resize(65535);
+			if (t2.t.size() > triLimit) t2.t.resize(triLimit);
 			s->SetTriangles(t2.t);
 			m.tris = t2.t;
 			ctx.probe("set_triangles");
